@@ -9,6 +9,8 @@
 (*             from it                                                     *)
 (*  e = "Lit"  one SMTPError composite literal of the source tree (go/ast  *)
 (*             scan); helper pairs evaluated by the real helpers           *)
+(*  e = "Comp" a reply whose codes are computed at run time, recorded from *)
+(*             the real code path (site) driven with the input in          *)
 (*                                                                         *)
 (* Per row TLC evaluates the property predicates of Errors.tla on the      *)
 (* recorded output (viol), looks for the smallest set of OPEN deviations   *)
@@ -66,8 +68,18 @@ LitVerdict(r) ==
            devs |-> IF viol = {} THEN {} ELSE IF expl = {} THEN {"UNEXPLAINED"} ELSE Smallest(expl)]
   ELSE [t |-> r.t, drift |-> FALSE, driftAt |-> 0, viol |-> {}, devs |-> {}]   \* not statically decidable
 
+\* e = "Comp": a reply computed at run time by the code path r.site driven with r.in
+CompVerdict(r) ==
+  LET o    == [code |-> r.out.code, enh |-> r.out.enh, temp |-> r.out.temp]
+      \* a path that no longer fails says nothing about reply classes: drift, not a violation
+      viol == IF r.out.failed /\ ~CompCoherent(o) THEN {"CompCoherent"} ELSE {}
+      expl == {D \in SUBSET Devs : r.out.failed /\ CompRule(D, r) = o}
+  IN [t |-> r.t, drift |-> expl = {}, driftAt |-> IF expl = {} THEN r.seq ELSE 0, viol |-> viol,
+      devs |-> IF viol = {} THEN {} ELSE IF expl = {} THEN {"UNEXPLAINED"} ELSE Smallest(expl)]
+
 Verdict(r) == IF r.e = "Row" THEN TermVerdict(r)
               ELSE IF r.e = "Lit" THEN LitVerdict(r)
+              ELSE IF r.e = "Comp" THEN CompVerdict(r)
               ELSE [t |-> r.t, drift |-> FALSE, driftAt |-> 0, viol |-> {}, devs |-> {}]
 
 VARIABLE done
